@@ -1072,6 +1072,8 @@ class Key(object):
             else:
                 if kf['format'] == 'address':
                     raise BKeyError("Can not create Key object from address")
+                if kf['format'] in ['hdkey_public', 'hdkey_private'] and isinstance(import_key, str):
+                    raise BKeyError("Can not create Key object from extended key, use HDKey class")
                 self.key_format = kf["format"]
                 networks_extracted = kf["networks"]
                 self.is_private = is_private if is_private else kf['is_private']
